@@ -620,69 +620,42 @@ func (ex *Exec) selectInstr(f *frame, ins *ssa.Select) Value {
 	if ex.clock == nil {
 		ex.clock = tb.ConstI(0, 64)
 	}
-	// earliest fire time among non-nil channels with a fire time
-	var earliest *smt.Term
-	for _, c := range chans {
-		if c == nil || c.FireAt == nil {
-			continue
-		}
-		ft := c.FireAt
-		// a channel that fired in the past is ready now
-		ft = tb.Ite(tb.Slt(ft, ex.clock), ex.clock, ft)
-		if earliest == nil {
-			earliest = ft
-		} else {
-			earliest = tb.Ite(tb.Slt(ft, earliest), ft, earliest)
-		}
-	}
-	if earliest == nil {
-		ex.oblige("deadlock", "", tb.True(), "select blocks forever")
-		panic(pathEnd{kind: endPanic})
-	}
-	// choose any channel that is ready at the earliest time (Go picks at random among ready ones)
+	// effective ready time of every channel (a channel that fired in the past is ready now);
+	// decided by branching so that the terms along one path stay simple
+	best := -1
+	var bestT *smt.Term
 	for i, c := range chans {
 		if c == nil || c.FireAt == nil {
 			continue
 		}
-		ready := tb.Sle(c.FireAt, earliest)
-		last := true
-		for _, c2 := range chans[i+1:] {
-			if c2 != nil && c2.FireAt != nil {
-				last = false
-			}
+		eff := c.FireAt
+		if ex.branch(tb.Slt(eff, ex.clock), ins) {
+			eff = ex.clock
 		}
-		take := false
-		if last {
-			ex.addPC(ready)
-			take = true
-		} else {
-			take = ex.branch(ready, ins)
-			if take {
-				// nondeterministic choice between several ready channels: model by a free boolean
-				more := tb.False()
-				for _, c2 := range chans[i+1:] {
-					if c2 != nil && c2.FireAt != nil {
-						more = tb.Or(more, tb.Sle(c2.FireAt, earliest))
-					}
-				}
-				if !more.IsFalse() {
-					pick := tb.Sym(ex.freshName("select_pick"), smt.BoolSort)
-					if ex.branch(tb.And(more, pick), ins) {
-						take = false
-					}
-				}
-			}
+		if best < 0 {
+			best, bestT = i, eff
+			continue
 		}
-		if take {
-			ex.clock = earliest
-			res := Tuple{ex.c64(uint64(i)), tb.True()}
-			for _, st := range ins.States {
-				if st.Dir == types.RecvOnly {
-					res = append(res, ex.zero(st.Chan.Type().Underlying().(*types.Chan).Elem()))
-				}
+		if ex.branch(tb.Slt(eff, bestT), ins) {
+			best, bestT = i, eff
+		} else if ex.branch(tb.Eq(eff, bestT), ins) {
+			// both ready at the same instant: Go picks at random
+			pick := tb.Sym(ex.freshName("select_pick"), smt.BoolSort)
+			if ex.branch(pick, ins) {
+				best, bestT = i, eff
 			}
-			return res
 		}
 	}
-	panic(pathEnd{kind: endDead})
+	if best < 0 {
+		ex.oblige("deadlock", "", tb.True(), "select blocks forever")
+		panic(pathEnd{kind: endPanic})
+	}
+	ex.clock = bestT
+	res := Tuple{ex.c64(uint64(best)), tb.True()}
+	for _, st := range ins.States {
+		if st.Dir == types.RecvOnly {
+			res = append(res, ex.zero(st.Chan.Type().Underlying().(*types.Chan).Elem()))
+		}
+	}
+	return res
 }
